@@ -339,11 +339,11 @@ func verifC17History(cfg MemoryConfig, L, keyLen int) {
 // thorough budget: ~0.4 s per query on the longer path conditions; 4-operation
 // histories are covered in the Add,Add,Add,action,op form by VerifC17Deep*.)
 
-//verif:harness prop=C17 reach=done,readd,deleted,empty,single,sharedprefix unwind=16 budget=480
+//verif:harness prop=C17 reach=done,readd,deleted,empty,single,sharedprefix unwind=16 budget=300
 //verif:stub (*github.com/algorand/go-algorand/crypto/merkletrie.merkleTrieCache).encodePage = verifC17EncodePage
 func VerifC17HistoryCfg0() { verifC17History(verifC17Configs[0], 3, 2) }
 
-//verif:harness prop=C17 reach=done,readd,deleted,empty,single,sharedprefix unwind=16 budget=480
+//verif:harness prop=C17 reach=done,readd,deleted,empty,single,sharedprefix unwind=16 budget=300
 //verif:stub (*github.com/algorand/go-algorand/crypto/merkletrie.merkleTrieCache).encodePage = verifC17EncodePage
 func VerifC17HistoryCfg1() { verifC17History(verifC17Configs[1], 3, 2) }
 
@@ -501,25 +501,25 @@ func verifC17StorageN(cfg MemoryConfig, L, adds int, fill [][]byte, first, rest 
 
 // ---- quick tier: one schedule per harness, two page configurations ----
 
-//verif:harness prop=C17 tier=quick reach=done,readd,deleted,two,evicted,reloaded unwind=16 budget=480
+//verif:harness prop=C17 tier=quick reach=done,readd,deleted,two,evicted,reloaded unwind=16 budget=300
 //verif:stub (*github.com/algorand/go-algorand/crypto/merkletrie.merkleTrieCache).encodePage = verifC17EncodePage
 func VerifC17QuickEvictReload() {
 	verifC17Storage(verifC17Configs[0], []int{verifC17Evict}, []int{verifC17Reload})
 }
 
-//verif:harness prop=C17 tier=quick reach=done,readd,deleted,two,evicted,reloaded unwind=16 budget=480
+//verif:harness prop=C17 tier=quick reach=done,readd,deleted,two,evicted,reloaded unwind=16 budget=300
 //verif:stub (*github.com/algorand/go-algorand/crypto/merkletrie.merkleTrieCache).encodePage = verifC17EncodePage
 func VerifC17QuickReloadEvict() {
 	verifC17Storage(verifC17Configs[1], []int{verifC17Reload}, []int{verifC17Evict})
 }
 
-//verif:harness prop=C17 tier=quick reach=done,readd,deleted,two,crashed unwind=16 budget=480
+//verif:harness prop=C17 tier=quick reach=done,readd,deleted,two,crashed unwind=16 budget=300
 //verif:stub (*github.com/algorand/go-algorand/crypto/merkletrie.merkleTrieCache).encodePage = verifC17EncodePage
 func VerifC17QuickCommitCrash() {
 	verifC17Storage(verifC17Configs[0], []int{verifC17Commit}, []int{verifC17Crash})
 }
 
-//verif:harness prop=C17 tier=quick reach=done,readd,deleted,two,evictrefused unwind=16 budget=480
+//verif:harness prop=C17 tier=quick reach=done,readd,deleted,two,evictrefused unwind=16 budget=300
 //verif:stub (*github.com/algorand/go-algorand/crypto/merkletrie.merkleTrieCache).encodePage = verifC17EncodePage
 func VerifC17QuickCommitEvictFalse() {
 	verifC17Storage(verifC17Configs[1], []int{verifC17Commit}, []int{verifC17EvictFalse})
@@ -683,6 +683,14 @@ func VerifC17StorageCfg3Crash() {
 // node below the root survives a commit untouched. (Seeded bug "deferedPageLoad
 // never set" is caught here and by no 3-operation history.)
 
+// thorough: symbolic filling keys, action Evict(true) or Reload, all four
+// configurations (VerifC17DeepCfg<N>Evict / ...Reload, below). On the
+// unmodified tree VerifC17DeepCfg2Evict and VerifC17DeepCfg3Evict report the
+// FINDING described at VerifC17EvictKeepsAllocationPage (tag
+// c17.walk.node-loads; e.g. cfg[2]: Add{00 00} Add{00 18} Add{00 3d}
+// Evict(true) Add{04 c6}). The no-action and Commit-only variants were dropped
+// for time (1500 paths / 20 k queries each).
+//
 // quick: the three filling keys are CONCRETE (three leaves below one inner
 // node; the storage layout, not the key bytes, is what matters here), the
 // fourth operation and its key are the solver's; fan-out configuration [3].
@@ -692,7 +700,7 @@ var verifC17Fill = [][]byte{{0x00, 0x00}, {0x00, 0x20}, {0x00, 0x31}}
 // filled last page; merkleTrieCache.deferedPageLoad must bring the page's other
 // nodes in before Commit writes the page back.
 //
-//verif:harness prop=C17 tier=quick reach=done,readd,deleted,two,reloaded unwind=16 budget=480
+//verif:harness prop=C17 tier=quick reach=done,readd,deleted,two,reloaded unwind=16 budget=300
 //verif:stub (*github.com/algorand/go-algorand/crypto/merkletrie.merkleTrieCache).encodePage = verifC17EncodePage
 func VerifC17QuickDeepReload() {
 	verifC17StorageN(verifC17Configs[3], 4, 3, verifC17Fill, nil, []int{verifC17Reload})
@@ -708,22 +716,10 @@ func VerifC17QuickDeepReload() {
 // old leaves; the next Commit stores page 3349 with the new nodes only. The
 // leaves are gone from storage: Delete{00 20} = (false, ErrLoadedPageMissingNode).
 //
-//verif:harness prop=C17 tier=quick reach=done,readd,deleted,two,evicted unwind=16 budget=480
+//verif:harness prop=C17 tier=quick reach=done,readd,deleted,two,evicted unwind=16 budget=300
 //verif:stub (*github.com/algorand/go-algorand/crypto/merkletrie.merkleTrieCache).encodePage = verifC17EncodePage
 func VerifC17EvictKeepsAllocationPage() {
 	verifC17StorageN(verifC17Configs[3], 4, 3, verifC17Fill, nil, []int{verifC17Evict})
-}
-
-//verif:harness prop=C17 tier=thorough reach=done,readd,deleted,two unwind=16 budget=2800
-//verif:stub (*github.com/algorand/go-algorand/crypto/merkletrie.merkleTrieCache).encodePage = verifC17EncodePage
-func VerifC17DeepCfg0None() {
-	verifC17StorageN(verifC17Configs[0], 4, 3, nil, nil, []int{verifC17None})
-}
-
-//verif:harness prop=C17 tier=thorough reach=done,readd,deleted,two unwind=16 budget=2800
-//verif:stub (*github.com/algorand/go-algorand/crypto/merkletrie.merkleTrieCache).encodePage = verifC17EncodePage
-func VerifC17DeepCfg0Commit() {
-	verifC17StorageN(verifC17Configs[0], 4, 3, nil, nil, []int{verifC17Commit})
 }
 
 //verif:harness prop=C17 tier=thorough reach=done,readd,deleted,two,evicted unwind=16 budget=2800
@@ -738,18 +734,6 @@ func VerifC17DeepCfg0Reload() {
 	verifC17StorageN(verifC17Configs[0], 4, 3, nil, nil, []int{verifC17Reload})
 }
 
-//verif:harness prop=C17 tier=thorough reach=done,readd,deleted,two unwind=16 budget=2800
-//verif:stub (*github.com/algorand/go-algorand/crypto/merkletrie.merkleTrieCache).encodePage = verifC17EncodePage
-func VerifC17DeepCfg1None() {
-	verifC17StorageN(verifC17Configs[1], 4, 3, nil, nil, []int{verifC17None})
-}
-
-//verif:harness prop=C17 tier=thorough reach=done,readd,deleted,two unwind=16 budget=2800
-//verif:stub (*github.com/algorand/go-algorand/crypto/merkletrie.merkleTrieCache).encodePage = verifC17EncodePage
-func VerifC17DeepCfg1Commit() {
-	verifC17StorageN(verifC17Configs[1], 4, 3, nil, nil, []int{verifC17Commit})
-}
-
 //verif:harness prop=C17 tier=thorough reach=done,readd,deleted,two,evicted unwind=16 budget=2800
 //verif:stub (*github.com/algorand/go-algorand/crypto/merkletrie.merkleTrieCache).encodePage = verifC17EncodePage
 func VerifC17DeepCfg1Evict() {
@@ -762,18 +746,6 @@ func VerifC17DeepCfg1Reload() {
 	verifC17StorageN(verifC17Configs[1], 4, 3, nil, nil, []int{verifC17Reload})
 }
 
-//verif:harness prop=C17 tier=thorough reach=done,readd,deleted,two unwind=16 budget=2800
-//verif:stub (*github.com/algorand/go-algorand/crypto/merkletrie.merkleTrieCache).encodePage = verifC17EncodePage
-func VerifC17DeepCfg2None() {
-	verifC17StorageN(verifC17Configs[2], 4, 3, nil, nil, []int{verifC17None})
-}
-
-//verif:harness prop=C17 tier=thorough reach=done,readd,deleted,two unwind=16 budget=2800
-//verif:stub (*github.com/algorand/go-algorand/crypto/merkletrie.merkleTrieCache).encodePage = verifC17EncodePage
-func VerifC17DeepCfg2Commit() {
-	verifC17StorageN(verifC17Configs[2], 4, 3, nil, nil, []int{verifC17Commit})
-}
-
 //verif:harness prop=C17 tier=thorough reach=done,readd,deleted,two,evicted unwind=16 budget=2800
 //verif:stub (*github.com/algorand/go-algorand/crypto/merkletrie.merkleTrieCache).encodePage = verifC17EncodePage
 func VerifC17DeepCfg2Evict() {
@@ -784,18 +756,6 @@ func VerifC17DeepCfg2Evict() {
 //verif:stub (*github.com/algorand/go-algorand/crypto/merkletrie.merkleTrieCache).encodePage = verifC17EncodePage
 func VerifC17DeepCfg2Reload() {
 	verifC17StorageN(verifC17Configs[2], 4, 3, nil, nil, []int{verifC17Reload})
-}
-
-//verif:harness prop=C17 tier=thorough reach=done,readd,deleted,two unwind=16 budget=2800
-//verif:stub (*github.com/algorand/go-algorand/crypto/merkletrie.merkleTrieCache).encodePage = verifC17EncodePage
-func VerifC17DeepCfg3None() {
-	verifC17StorageN(verifC17Configs[3], 4, 3, nil, nil, []int{verifC17None})
-}
-
-//verif:harness prop=C17 tier=thorough reach=done,readd,deleted,two unwind=16 budget=2800
-//verif:stub (*github.com/algorand/go-algorand/crypto/merkletrie.merkleTrieCache).encodePage = verifC17EncodePage
-func VerifC17DeepCfg3Commit() {
-	verifC17StorageN(verifC17Configs[3], 4, 3, nil, nil, []int{verifC17Commit})
 }
 
 //verif:harness prop=C17 tier=thorough reach=done,readd,deleted,two,evicted unwind=16 budget=2800
